@@ -2273,17 +2273,10 @@ class AxisInterp:
             return self._numap
         m = {}
         try:
-            f = self.repo.func('biom/table.py', 'Table._axis_to_num')
-            for n in ast.walk(f):
-                if isinstance(n, ast.If) and isinstance(n.test,
-                                                        ast.Compare):
-                    k = const_str(n.test.comparators[0])
-                    for b in n.body:
-                        if isinstance(b, ast.Return) and isinstance(
-                                b.value, ast.Constant):
-                            m[k] = b.value.value
+            from .consteval import axis_num_mapping
+            m = axis_num_mapping(self.repo)
         except Exception:
-            pass
+            m = {}
         self._numap = m
         return m
 
